@@ -116,7 +116,11 @@ def rand_str(rng, depth):
     from vf.gen import strbuild as sb
 
     if depth <= 0 or rng.random() < 0.3:
-        return ["strv", rand_cps(rng)] if rng.random() < 0.5 else rng.choice(sb.pool())
+        lit = ["strv", rand_cps(rng)] if rng.random() < 0.5 else rng.choice(sb.pool())
+        if rng.random() < 0.12 and lit[0] == "strv":
+            # the same characters as an annotated constant (a different object from the plain constant)
+            lit = ["strv@ann", lit[1]]
+        return lit
     k = rng.randrange(4)
     if k == 0:
         return ["sconcat", rand_str(rng, depth - 1), rand_str(rng, depth - 1)]
